@@ -632,6 +632,7 @@ impl TransformerContext {
                 "rx" | "ry" => Some("rxy"),
                 "dx" | "dy" => Some("dxy"),
                 "dw" | "dh" => Some("dwh"),
+                "text-dx" | "text-dy" => Some("text-dxy"),
                 _ => None,
             };
             if own_shorthand.is_some_and(|shorthand| el.has_attr(shorthand)) {
